@@ -345,6 +345,69 @@ func c08Ep(mode string) string {
 	return "store=" + strings.Join(st, ",") + " procs=" + strings.Join(pr, ",")
 }
 
+// c08.limit   a real TCP processor with a connection limit of 1; a configuration update raises the limit to 3; three clients connect and
+// hold their connections.  -> cfg=<the limit the processor's configuration reports> served=<clients whose connection is relayed>
+func c08Limit() string {
+	be, err := hx.NewBackend()
+	if err != nil {
+		return "sockerr"
+	}
+	defer be.Close()
+	go func() {
+		for c := range be.Conns {
+			go func(c net.Conn) { io.Copy(c, c); c.Close() }(c)
+		}
+	}()
+	ct := 300 * time.Millisecond
+	idle := time.Minute
+	mk := func(limit uint32) *service.Config {
+		return &service.Config{
+			Listener:        &service.Listener{Address: &common.Address{Ip: "127.0.0.1", Port: 0}, ConnectionLimit: limit},
+			ConnectTimeout:  &ct,
+			IdleTimeout:     &idle,
+			Protocol:        protocol.TCP,
+			ProtocolOptions: &service.Config_TcpOption{TcpOption: &protocol.TCPOption{}},
+		}
+	}
+	c08seq++
+	name := fmt.Sprintf("verif-c08l-%d-%d", os.Getpid(), c08seq)
+	defer hx.DropScopes("service." + strings.Replace(name, ".", "_", -1) + ".")
+	p, err := proc.New(name, mk(1), []*host.Host{host.New(be.Addr)})
+	if err != nil {
+		return "procerr"
+	}
+	if err := p.Start(); err != nil {
+		return "procerr"
+	}
+	defer p.Stop()
+	time.Sleep(2 * time.Millisecond)
+	for i := 0; i < 400 && p.Address() == ""; i++ {
+		time.Sleep(time.Millisecond)
+	}
+	if err := p.OnSvcConfigUpdate(mk(3)); err != nil {
+		return "update-error"
+	}
+	served := 0
+	var held []net.Conn
+	for i := 0; i < 3; i++ {
+		c, err := net.DialTimeout("tcp", p.Address(), time.Second)
+		if err != nil {
+			continue
+		}
+		held = append(held, c)
+		c.Write([]byte("x"))
+		c.SetReadDeadline(time.Now().Add(500 * time.Millisecond))
+		b := make([]byte, 1)
+		if _, err := io.ReadFull(c, b); err == nil {
+			served++
+		}
+	}
+	for _, c := range held {
+		c.Close()
+	}
+	return fmt.Sprintf("cfg=%d served=%d", p.Config().GetListener().GetConnectionLimit(), served)
+}
+
 func c08HcOff() string {
 	up, err := hx.NewBackend()
 	if err != nil {
@@ -453,6 +516,9 @@ func c08HcOff() string {
 var c08seq int
 
 func (c08) Exec(op string) string {
+	if op == "c08.limit" {
+		return recoverStr(c08Limit)
+	}
 	if op == "c08.hcoff" {
 		return recoverStr(c08HcOff)
 	}
